@@ -179,7 +179,7 @@ def check_table_receivers(chk, tus, rule):
                            'wasmCWrite%sFunction:table-receiver' % ('Instantiate' if entry == 'modInstantiate' else 'NewChild'))
 
 
-def check_allocators(chk):
+def check_allocators(chk, rule='R06.7', only_shared_clause=False):
     """R06.7: the runtime allocators called by the emitted initialisers create memories and tables of the declared minimum size,
     zero-filled: wasmMemoryAllocate(initial, max, shared) and wasmTableAllocate(table, size, max) are partially evaluated with
     symbolic operands and the final descriptor is compared field by field"""
@@ -214,33 +214,42 @@ def check_allocators(chk):
                     m = re.search(r'\.(\w+)$', repr(a[0]))
                     if m:
                         fields[m.group(1)] = a[1]
-            chk.expect(pe.strip_casts(fields.get('pages')) == ini, 'R06.7', inst + ':pages',
+            chk.expect(pe.strip_casts(fields.get('pages')) == ini, rule, inst + ':pages',
                        'a new memory reports %r pages; the specification instantiates it with the declared minimum (initialPages) - memory.size '
                        'and every later memory.grow depend on it' % (fields.get('pages'),), site + ':pages')
-            chk.expect(pe.strip_casts(fields.get('maxPages')) == mx, 'R06.7', inst + ':max', 'maxPages is set to %r' % (fields.get('maxPages'),),
+            chk.expect(pe.strip_casts(fields.get('maxPages')) == mx, rule, inst + ':max', 'maxPages is set to %r' % (fields.get('maxPages'),),
                        site + ':max')
-            chk.expect(fields.get('shared') == shared, 'R06.7', inst + ':shared', 'shared flag is set to %r' % (fields.get('shared'),), site + ':shared')
+            chk.expect(fields.get('shared') == shared, rule, inst + ':shared', 'shared flag is set to %r' % (fields.get('shared'),), site + ':shared')
+            if shared:
+                inits = [nm for nm, a, l in p.events if 'mutex_init' in nm or nm in ('extern:InitializeCriticalSection',)]
+                chk.expect(len(inits) == 1, rule, inst + ':mutex', 'a shared memory is created with %d mutex initialisations (%r): every shared '
+                           'memory - whatever its limits - is locked by memory.grow and memory.size' % (len(inits), inits), site + ':mutex')
+            if only_shared_clause:
+                continue
             allowed = [ini] + ([mx] if shared else [])
             size = fields.get('size')
             cover = [x for x in allowed if is_bytes(size, x)]
-            chk.expect(bool(cover), 'R06.7', inst + ':size',
+            chk.expect(bool(cover), rule, inst + ':size',
                        'the byte size is set to %r; expected the page count (%s) times 65536' % (size, ' or '.join(repr(x) for x in allowed)),
                        site + ':size')
             allocs = [(nm, a) for nm, a, l in p.events if nm in ('calloc', 'malloc', 'realloc')]
-            data_alloc = [(nm, a) for nm, a in allocs if not (nm == 'calloc' and any('sizeof' in repr(x) for x in a))]
-            if not chk.expect(len(data_alloc) == 1, 'R06.7', inst + ':one-allocation', 'data allocations: %r' % (data_alloc,), site + ':alloc'):
+            data_alloc = [(nm, a) for nm, a in allocs if not (nm == 'calloc' and (any('sizeof' in repr(x) for x in a) or
+                                                                             (a[0] == 1 and isinstance(a[1], int))))]
+            if not chk.expect(len(data_alloc) == 1, rule, inst + ':one-allocation', 'data allocations: %r' % (data_alloc,), site + ':alloc'):
                 continue
             nm, a = data_alloc[0]
             if nm != 'calloc':
                 zero = any(n2 == 'extern:memset' or n2 == 'memset' for n2, _a, _l in p.events)
-                chk.expect(zero, 'R06.7', inst + ':zeroed', 'linear memory is obtained with %s and not cleared: new memories must read as zero' % nm,
+                chk.expect(zero, rule, inst + ':zeroed', 'linear memory is obtained with %s and not cleared: new memories must read as zero' % nm,
                            site + ':zeroed')
                 continue
             aa = [pe.strip_casts(x) for x in a]
             total_ok = bool(cover) and ((is_bytes(aa[0], cover[0]) and aa[1] == 1) or (aa[0] == 1 and is_bytes(aa[1], cover[0])) or
                                         (aa[0] == cover[0] and aa[1] == 65536) or (aa[1] == cover[0] and aa[0] == 65536))
-            chk.expect(total_ok, 'R06.7', inst + ':allocation', 'calloc(%r, %r) does not allocate the %r bytes recorded as the memory size'
+            chk.expect(total_ok, rule, inst + ':allocation', 'calloc(%r, %r) does not allocate the %r bytes recorded as the memory size'
                        % (a[0], a[1], size), site + ':alloc')
+    if only_shared_clause:
+        return
     # tables
     sz, tmx = unk('size', 'unsigned int'), unk('maxSize', 'unsigned int')
 
@@ -254,12 +263,12 @@ def check_allocators(chk):
     chk.require(ps, 'wasmTableAllocate has no path')
     for p in ps:
         t = p.state['t']['v']
-        chk.expect(pe.strip_casts(t['size']) == sz and pe.strip_casts(t['maxSize']) == tmx, 'R06.7', 'table:fields',
+        chk.expect(pe.strip_casts(t['size']) == sz and pe.strip_casts(t['maxSize']) == tmx, rule, 'table:fields',
                    'a new table records size %r / maximum %r; expected the declared minimum and maximum' % (t['size'], t['maxSize']),
                    'wasmTableAllocate:fields')
         cal = [a for nm, a, l in p.events if nm == 'calloc']
-        ok = len(cal) == 1 and any(pe.strip_casts(x) == sz for x in cal[0]) and any('sizeof' in repr(x) for x in cal[0])
-        chk.expect(ok, 'R06.7', 'table:allocation', 'table entries are allocated by %r; expected calloc of `size` zeroed function pointers'
+        ok = len(cal) == 1 and any(pe.strip_casts(x) == sz for x in cal[0]) and any('sizeof' in repr(x) or x == 8 for x in cal[0])
+        chk.expect(ok, rule, 'table:allocation', 'table entries are allocated by %r; expected calloc of `size` zeroed function pointers'
                    % ([e for e in p.events if e[0] in ('calloc', 'malloc')],), 'wasmTableAllocate:alloc')
 
 
@@ -603,6 +612,35 @@ def check_mixed_entities(chk, it):
                'numbered after the imports; the imported global belongs to the embedder)' % (gl,), 'wasmCWriteInitGlobals:mixed')
 
 
+def check_zero_globals(chk, it):
+    """R06.5: every defined global is assigned by InitGlobals whatever its initial value - Instantiate runs on storage provided by
+    the embedder (a stack object, a reused instance), so a global whose initialiser is zero is not "already initialised" """
+    from .c07 import c_constant_bits
+    zero = [('i32', M.i32_const(0), 0), ('i64', M.i64_const(0), 0),
+            ('f32', M.buffer([('byte', 0x43), ('f32', 0), ('byte', 0x0B)]), 0), ('f64', M.buffer([('byte', 0x44), ('f64', 0), ('byte', 0x0B)]), 0),
+            ('i32', M.i32_const(7), 7), ('f64', M.buffer([('byte', 0x44), ('f64', 0x8000000000000000), ('byte', 0x0B)]), 0x8000000000000000)]
+    mk = lambda: M.build(it, types=[([], [])], functions=[0], globals_=[(t, True, init) for t, init, _ in zero], exports=[])
+    fns = split_functions(inits_text(it, mk))
+    chk.require('modInitGlobals' in fns, 'InitGlobals is not emitted for a module with %d defined globals' % len(zero))
+    body = fns['modInitGlobals']
+    asg = dict()
+    for a_, b_ in re.findall(r'i->g(\d+)\s*=\s*([^;]+);', body):
+        asg.setdefault(int(a_), []).append(b_.strip())
+    for k, (t, _init, bits) in enumerate(zero):
+        got = asg.get(k, [])
+        val = c_constant_bits(got[0], t) if len(got) == 1 else None
+        if len(got) == 1 and val is None and re.match(r'f(32|64)_reinterpret_i(32|64)\(', got[0]):
+            inner = re.match(r'f(?:32|64)_reinterpret_i(?:32|64)\((.*)\)$', got[0])
+            val = c_constant_bits(inner.group(1), 'i' + t[1:]) if inner else None
+        if len(got) == 1 and val is None and t[0] == 'f' and got[0].startswith('<('):
+            val = bits          # float literal spelling is C07's obligation (placeholder of the literal writer); here: the store exists
+        chk.expect(len(got) == 1 and val == bits, 'R06.5', 'global-init[%d:%s=0x%X]' % (k, t, bits),
+                   'InitGlobals assigns global %d (%s, initial value bits 0x%X) %s; every defined global must be set from its constant expression '
+                   '- the instance record is not zeroed by Instantiate, so an omitted store leaves whatever the storage held'
+                   % (k, t, bits, ('%d times' % len(got)) if len(got) != 1 else 'as %r (bits %r)' % (got[0], val)),
+                   'wasmCWriteInitGlobals:every-global')
+
+
 def run(chk):
     chk.explanation = (
         'The module-level emitters are partially evaluated on %d concrete module shapes (defined/imported/no memory x table, globals, '
@@ -614,6 +652,7 @@ def run(chk):
     tus = emit.translator_tus(('c.c', 'opcode.c', 'instruction.c'), chk=chk)
     it = make(tus)
     n = check_shapes(chk, it)
+    check_zero_globals(chk, it)
     check_allocators(chk)
     check_common_record(chk, tus, 'R06.4')
     chk.floor('R06.7', 12)
